@@ -1679,7 +1679,12 @@ static Node *stmt(Token **rest, Token *tok) {
     if (equal(tok, "...")) {
       // [GNU] Case ranges, e.g. "case 1 ... 5:"
       end = const_expr(&tok, tok->next);
-      if (end < begin)
+
+      // The bounds are values of the promoted controlling type: for
+      // unsigned long, 0x7fffffffffffffff ... 0x8000000000000000 is not empty.
+      add_type(current_switch->cond);
+      Type *ty = current_switch->cond->ty;
+      if (ty->is_unsigned && ty->size == 8 ? (uint64_t)end < (uint64_t)begin : end < begin)
         error_tok(tok, "empty case range specified");
     } else {
       end = begin;
